@@ -87,7 +87,7 @@ var properties = map[string]propSpec{
 	},
 	"C05": {
 		Bounds: [2]map[string]any{
-			{"rows": "0..3", "limit,offset": "any int in [0,2^63)", "sort keys": "1-2 numeric keys × ASC/DESC/default, one string key ≤2 bytes, nullable numeric key; renamed, computed and shadowing aliases as sort keys (with a window)"},
+			{"rows": "0..3", "limit,offset": "any int in [0,2^63)", "sort keys": "1-2 numeric keys × ASC/DESC/default, one string key ≤2 bytes, nullable numeric key; renamed, computed and shadowing aliases as sort keys (with a window)", "pipeline": "[WHERE] × {plain, DISTINCT, GROUP BY, GROUP BY + HAVING} × [ORDER BY first or second output column ASC/DESC] × [LIMIT 0..3 OFFSET 0..3] on 0..2 rows against a reference evaluator of the whole pipeline"},
 			{"rows": "0..4", "limit,offset": "same", "sort keys": "same"},
 		},
 		Outside: []string{"sort inputs above 12 elements (pdqsort paths; insertionSortLessFunc is what runs below)", "NaN sort keys"},
